@@ -21,7 +21,7 @@ ASSUMPTIONS = ["Cantera is trusted; built-ins compared at rtol 1e-9 against a fl
                "cells whose temp and mass fractions are all zero have no defined state: new "
                "fields are not judged there (kept fields and min/max rows are)",
                "pathos pool replaced by the M1 shim here; real pathos pools are driven by C12"]
-REQUIRED_OBS = {"cooked": 60, "recipe:user2": 10, "recipe:user2multi": 10, "recipe:user3": 4,
+REQUIRED_OBS = {"cooked": 60, "recipe:user2": 10, "recipe:user2multi": 10, "recipe:user3": 2,
                 "recipe:HRR": 2, "recipe:ENT": 2, "recipe:SRi": 2, "recipe:SDi": 2, "recipe:RRi": 2,
                 "kept_nonempty": 20, "parallel": 20, "callable": 5}
 TIMEOUT = {"quick": 600, "thorough": 2400}
